@@ -78,7 +78,7 @@ class Ctx:
                     scope |= {'C16', 'C08'}
                 elif 'allocsites' in l.lower():
                     m = re.search(r'unsupported \[([C0-9 ]+)\]', l)
-                    scope |= set(m.group(1).split()) if m else {'C01', 'C02', 'C13', 'C10', 'C12', 'C05', 'C03'}
+                    scope |= set(m.group(1).split()) if m else {'C01', 'C02', 'C13', 'C10', 'C12', 'C05', 'C03', 'C15', 'C17'}
                 else:
                     scope = None
                     break
